@@ -68,6 +68,25 @@ CLAIMED = {
             "optimality/error identity itself is numerical and NOT decided.",
             "trusted: argsort is ascending; python ast",
             "DESIGN.md §4 C13"),
+    "C09": ("sweeporder",
+            "must-pass-through / dominance queries on statement CFGs of the sweep loop bodies + polynomial site arithmetic + memo-key unification",
+            "Partial: decides, on every path of every DMRG and variational-compression sweep step, that the environment is "
+            "invalidated for exactly the written sites and refreshed after, and at the site of, the new isometry (site "
+            "expressions compared as polynomials per sweep direction); that every key memoised in env.F is popped by that "
+            "class's clear_site_; that the reported energy is env.measure() after the sweep of the same iteration on "
+            "<psi|H|psi>; and that DMRG normalises, ends at the first site and canonises its input. The variational bound, "
+            "monotonicity and convergence to an eigenstate are numerical and NOT decided.",
+            "trusted: CFG builder, exact polynomial arithmetic; only explicit raise is exceptional flow",
+            "DESIGN.md §4 C09/C10"),
+    "C10": ("sweeporder",
+            "exact polynomial identities of time-step coefficients and mid-points + CFG path rules of the sweep bodies",
+            "Partial: decides that every local evolution coefficient is -u*dt/2 (forward) or +u*dt/2 (backward), that for each "
+            "order the sub-step lengths sum to ds and H is sampled at each sub-step's mid-point (rational-function identities; "
+            "the 4th-order constant equals 1/(4-4^(1/3)) to 1e-15), that steps*ds = t1-t0 with exactly `steps` iterations and the "
+            "reported time is the loop-carried one, that bad dt/times raise, that the Krylov memo is per site, and the sweep "
+            "ordering rules of C09 for the three TDVP sweeps. Conservation laws and agreement with expm are numerical and NOT decided.",
+            "trusted: exact rational arithmetic with float literals taken exactly; CFG builder",
+            "DESIGN.md §4 C09/C10"),
 }
 
 NOT_APPLICABLE = {
